@@ -14,30 +14,34 @@ PROPS = {
             "integer coordinates, any type, any integer list as drops): move accepts exactly when the rulebook relation legal_step "
             "(declarative, pointwise in coordinates, written independently of the algorithm) allows it, with exactly the prescribed "
             "successor; legal_step is functional; the model has no third outcome and the correspondence maps any exception other than "
-            "IllegalMove to a constructor that never matches.",
-            "Coq theorem (loop invariant of the slide generalised over the carry, soundness + completeness against a declarative rulebook relation) + regenerated constants + differential correspondence in Coq",
-            "CPython list/slice semantics as used by game.py (validated by the correspondence incl. an ill-formed move stream).", "6/C01"),
+            "IllegalMove to a constructor that never matches. Since wave 2 the same theorems are also stated about gen/GameGen.v, a "
+            "shallow embedding of Position.move/_move_place/_move_slide REGENERATED from the source on every run against an explicit "
+            "model of Python's indexing, slicing and exceptions (PySem.v): the translated source is proved equal to the hand model "
+            "and never to crash (no IndexError, no negative-index wrap), so 'no other error escapes' is a theorem about the code "
+            "as translated, not a sampled observation.",
+            "Coq theorem (slide loop invariant; soundness + completeness against a declarative rulebook relation) about a model regenerated from the source by a translator (py2coq) + regenerated constants + differential correspondence in Coq",
+            "Translator harness/py2coq.py and model/PySem.v (Python list indexing/slicing/exception semantics), both validated on every run against CPython and the implementation.", "6/C01"),
     "C02": (True, "Full. For every position with size >= 1 and size^2 squares: the flood fill reaches the opposite edge exactly when a "
             "path of on-board, orthogonally linked squares whose TOP piece is a flat or capstone of the colour joins the edges "
             "(road as existence of a path; generic closure theorem with early exit); has_road and winner equal the outcome relation "
             "of the property text (both roads -> player who just moved; flats when full or a reserve is empty; draw; not over); "
             "has_road agrees with winner.",
             "Coq theorem (reachability closure <-> existence of a path, loop-erasure counting argument) + regenerated constants + differential correspondence in Coq",
-            "Reachability modelled as neighbour closure, not the Python work-list (results compared, not algorithms).", "6/C02"),
+            "Reachability modelled as neighbour closure, not the Python work-list (results compared, not algorithms); winner/flat_counts are additionally tied by the py2coq translation (gen/GameGen.v), _walk is not translated.", "6/C02"),
     "C03": (True, "Full. For every position with size^2 squares: every canonical move the rules accept is in all_moves (exactly once: "
             "NoDup and count_occ = 1), everything generated is an entry of the id table of the size (all sizes; with ids below the head "
             "width for 3-6), the table entries the rules accept are exactly the canonical legal moves, so filtering the table (what "
             "the search does) reaches each legal move once. 'Legal' is the executable rules `move`, proved equal to the rulebook "
             "relation in C01. The generator is a pseudo-legal superset by design; the property asks for completeness and uniqueness.",
             "Coq theorem (list membership/NoDup over flat_map) + regenerated constants + differential correspondence in Coq (lists compared in order) + independent move-universe oracle",
-            "The harness's independent enumerator of the move universe and ill-formed stream used by the search oracle.", "6/C03"),
+            "The harness's independent enumerator of the move universe and ill-formed stream used by the search oracle; all_moves, all_moves_for_size and ALL_SLIDES are additionally regenerated from the source (gen/GameGen.v) and proved equal to the model's lists.", "6/C03"),
     "C04": (True, "Full. Invariant (conservation of stones and capstones per colour, non-negative reserves, only tops are walls or "
             "capstones, ply >= 0 and side to move by parity, board empty at ply 0 / one black flat at ply 1 / one flat of each colour "
             "at ply 2) holds initially for every configuration (size 3..8, any non-negative counts), is preserved by every accepted "
             "move with ply + 1, hence along every finite sequence of accepted moves (induction over the move list); reachable positions "
             "are well-formed (C01's hypothesis).",
             "Coq theorem (invariant by induction over move sequences) + differential correspondence in Coq + closure of tiny configurations",
-            "3x3 closures are explored to a fixed point only for the smallest piece counts; larger ones to a stated cap.", "6/C04"),
+            "3x3 closures are explored to a fixed point only for the smallest piece counts; larger ones to a stated cap; the step theorem is also stated about the move function regenerated from the source (gen/GameGen.v).", "6/C04"),
     "C05": (True, "Full for the listed functions under the stated CPython semantics of the IR constructs. A heap-effect IR of "
             "Position.move (_move_place/_move_slide inlined), from_squares, from_config, parse_tps (parse_row inlined) and "
             "transform_position is REGENERATED from the source on every run by a fail-closed ast translator; theorem: a program all "
